@@ -271,6 +271,19 @@ impl Ctx {
         catch_unwind(AssertUnwindSafe(f)).map_err(|e| panic_message(&e))
     }
 
+    /// Runs an input supplier that belongs to ANOTHER property (e.g. the D-set generator feeding C07).
+    /// A panic in it is not this property's verdict, but it must not pass silently either: the family it
+    /// would have supplied is reported as not covered (the run is then not exhaustive).
+    pub fn supply<T: Default>(&mut self, what: &str, f: impl FnOnce() -> T) -> T {
+        match self.guard(f) {
+            Ok(v) => v,
+            Err(msg) => {
+                self.cap_hit(format!("input supplier {} panicked ({}): the family it feeds was NOT explored", what, msg));
+                T::default()
+            }
+        }
+    }
+
     /// `guard` that reports a panic as a violation of kind "panic:<what>".
     pub fn guarded<T>(&mut self, what: &str, case: &Value, weight: u64, f: impl FnOnce() -> T) -> Option<T> {
         match self.guard(f) {
@@ -324,6 +337,15 @@ fn scratch_dir(id: &str) -> PathBuf {
 // ---------------------------------------------------------------------------------------
 // worker side
 
+/// peak resident set of this process in MiB (VmHWM), 0 if /proc is unreadable
+fn peak_rss_mb() -> i64 {
+    std::fs::read_to_string("/proc/self/status")
+        .ok()
+        .and_then(|t| t.lines().find(|l| l.starts_with("VmHWM:")).and_then(|l| l.split_whitespace().nth(1).and_then(|x| x.parse::<i64>().ok())))
+        .map(|kb| kb / 1024)
+        .unwrap_or(0)
+}
+
 pub fn worker_main(spec: &Spec, tier: Tier, seed: u64, shard: usize, nshards: usize, dir: &Path) -> ! {
     silence_panics();
     let result_path = dir.join(format!("result-{}.json", shard));
@@ -355,6 +377,7 @@ pub fn worker_main(spec: &Spec, tier: Tier, seed: u64, shard: usize, nshards: us
     let r = catch_unwind(AssertUnwindSafe(|| (spec.run)(&mut ctx)));
     match r {
         Ok(()) => {
+            ctx.max("peak_worker_rss_mb", peak_rss_mb());
             std::fs::write(&result_path, ctx.to_json().to_string()).expect("write result");
             std::process::exit(0);
         }
